@@ -1,26 +1,651 @@
-//! C05 - not built yet.
-use crate::engine::{PropertyInfo, RunCtx};
+//! C05 - execution and compilation are deterministic and reproducible.
+//!
+//! Differential oracle across SEPARATE OS PROCESSES: every case (a multi-file ST project
+//! with many named entities + an input/clock trace) is written to a job file and handed to
+//! K >= 3 child processes (`tpv c05-worker <job>`), each started with a different
+//! environment size, number of pre-spawned threads and allocation pre-amble. Every child
+//! compiles the case twice and runs the trace twice (DebugControl attached) and returns
+//! SHA-256 digests of the STBC bytes (whole + per section), of the state dump after every
+//! cycle, of the fault list and of the drained runtime events. All 2K observations must
+//! agree. On a mismatch the children are run again in `full` mode and the first differing
+//! section / dump line is reported.
+
+use std::io::Read;
+use std::process::{Command, Stdio};
+use std::sync::Mutex;
+
+use proptest::prelude::*;
+use serde::{Deserialize, Serialize};
+use serde_json::json;
+
+use crate::engine::tape::Tape;
+use crate::engine::{verif_root, Probe, PropertyInfo, RunCtx, Tier};
+
+#[path = "c05/child.rs"]
+mod child;
+#[path = "c05/gen.rs"]
+mod gen;
+
+use child::{CaseResult, ChildCase, Job, Rep};
+use gen::{GenStats, SrcFile, Step, Tapes};
 
 pub fn info() -> PropertyInfo {
     PropertyInfo {
         id: "C05",
         level: "exploration",
-        rule: "not built yet",
-        assumptions: &[],
-        workers_quick: 1,
-        workers_thorough: 1,
+        rule: "case = ST project (generated: 1-4 files, up to 14 TYPEs, 10 functions, 4 interfaces, 12 classes/FBs with methods, inheritance and nested instances, 6 programs, 22 globals, tasks, AT bindings, retain variables, namespaces; or a project directory / single file of /repo) + trace of 2-6 cycles (clock steps, direct-input and global writes), compiled twice and run twice in each of K>=3 separately started OS processes (different environment size, pre-spawned threads, allocation pre-amble); non-trivial = the project compiles, its container has >= 3 POUs and >= 20 interned strings and the trace has >= 2 cycles; distinct by SHA-256 of sources + trace",
+        assumptions: &[
+            "one machine: differences that need another CPU/endianness/libm are out of reach",
+            "the runtime is driven through CompileSession::build_runtime + Runtime::{advance_time, execute_cycle, io_mut().write, storage_mut().set_global} (what TestHarness does, plus source paths)",
+            "the `time` field of every RuntimeEvent is the simulation clock (read in runtime/cycle.rs, core.rs apply_fault) and is compared; RuntimeMetrics (wall-clock durations, only recorded when a metrics sink is installed) are diagnostics, not program state, and are not compared",
+        ],
+        workers_quick: 8,
+        workers_thorough: 8,
         address_space_limit: 0,
-        watchdog_quick_s: 600,
-        watchdog_thorough_s: 3600,
+        watchdog_quick_s: 1500,
+        watchdog_thorough_s: 6 * 3600,
         run,
     }
 }
 
 /// Helper subcommands (child processes of this check); None = not mine.
-pub fn helper(_args: &[String]) -> Option<i32> {
+pub fn helper(args: &[String]) -> Option<i32> {
+    match args.first().map(|s| s.as_str()) {
+        Some("c05-worker") => Some(child::main(args)),
+        Some("c05-try") => Some(try_main(args)),
+        Some("c05-compile") => {
+            let files: Vec<SrcFile> = args[1..].iter().map(|p| SrcFile { path: None, text: std::fs::read_to_string(p).unwrap_or_default() }).collect();
+            let r = child::run_case_dev(&ChildCase { files, trace: vec![Step { dt_ns: 10_000_000, writes: vec![] }, Step { dt_ns: 10_000_000, writes: vec![] }] }, true);
+            println!("{} {}", r.reps[0].stbc, r.reps[0].full.as_ref().map(|f| f.compile_error.clone()).unwrap_or_default());
+            println!("faults: {:?}", r.reps[0].full.as_ref().map(|f| f.faults.clone()));
+            Some(0)
+        }
+        _ => None,
+    }
+}
+
+#[derive(Clone, Debug, Serialize, Deserialize)]
+pub struct Case {
+    pub origin: String,
+    pub files: Vec<SrcFile>,
+    pub trace: Vec<Step>,
+    #[serde(default)]
+    pub stats: Option<GenStats>,
+    /// true for cases drawn by the strategy in this run, false for replay files (serde
+    /// default) - the shrink budget below must never be started by a failing replay
+    #[serde(skip)]
+    pub fresh: bool,
+}
+
+impl Case {
+    fn child(&self) -> ChildCase {
+        ChildCase { files: self.files.clone(), trace: self.trace.clone() }
+    }
+    fn key(&self) -> Vec<u8> {
+        let mut k = Vec::new();
+        for f in &self.files {
+            k.extend_from_slice(f.path.as_deref().unwrap_or("-").as_bytes());
+            k.push(0);
+            k.extend_from_slice(f.text.as_bytes());
+            k.push(0);
+        }
+        k.extend_from_slice(serde_json::to_string(&self.trace).unwrap_or_default().as_bytes());
+        k
+    }
+}
+
+// --------------------------------------------------------------------------- strategies
+
+fn word() -> impl Strategy<Value = u32> {
+    prop_oneof![
+        8 => any::<u32>(),
+        1 => (0u32..16).prop_map(|v| v << 28),
+        1 => Just(0u32),
+    ]
+}
+
+fn words(n: usize) -> impl Strategy<Value = Tape> {
+    proptest::collection::vec(word(), n).prop_map(|data| Tape { data })
+}
+
+/// `scale` = upper bounds of the entity counts (types, globals, functions, interfaces,
+/// classes/FBs, programs).
+fn tapes_sized(scale: [usize; 6]) -> impl Strategy<Value = Tapes> {
+    (
+        words(16),
+        proptest::collection::vec(words(40), 0..=scale[0]),
+        proptest::collection::vec(words(8), 0..=scale[1]),
+        proptest::collection::vec(words(160), 0..=scale[2]),
+        proptest::collection::vec(words(40), 0..=scale[3]),
+        proptest::collection::vec(words(420), 0..=scale[4]),
+        proptest::collection::vec(words(520), 1..=scale[5]),
+        words(120),
+        words(16),
+        proptest::collection::vec(words(80), 2..=6),
+    )
+        .prop_map(|(head, types, globals, funcs, itfs, classlikes, programs, config, layout, steps)| Tapes {
+            head,
+            types,
+            globals,
+            funcs,
+            itfs,
+            classlikes,
+            programs,
+            config,
+            layout,
+            steps,
+        })
+}
+
+/// Two in three projects are medium sized, one in three large (the large ones are what
+/// reorders a hash map with certainty; the medium ones keep the quick tier cheap).
+fn tapes_strategy() -> impl Strategy<Value = Tapes> {
+    prop_oneof![
+        2 => tapes_sized([6, 10, 5, 2, 5, 3]),
+        1 => tapes_sized([14, 22, 10, 4, 12, 6]),
+    ]
+}
+
+fn gen_case_strategy() -> impl Strategy<Value = Case> {
+    tapes_strategy().prop_map(|t| {
+        let g = gen::generate(&t);
+        Case { origin: "generated".into(), files: g.files, trace: g.trace, stats: Some(g.stats), fresh: true }
+    })
+}
+
+// ------------------------------------------------------------------------------ corpus
+
+struct Project {
+    name: String,
+    files: Vec<(String, String)>,
+}
+
+fn walk(dir: &std::path::Path, out: &mut Vec<std::path::PathBuf>) {
+    let Ok(rd) = std::fs::read_dir(dir) else {
+        return;
+    };
+    let mut entries: Vec<_> = rd.flatten().map(|e| e.path()).collect();
+    entries.sort();
+    for p in entries {
+        let name = p.file_name().and_then(|n| n.to_str()).unwrap_or("");
+        if name == "target" || name == ".git" || name == "node_modules" {
+            continue;
+        }
+        if p.is_dir() {
+            walk(&p, out);
+        } else if name.ends_with(".st") || name.ends_with(".ST") {
+            out.push(p);
+        }
+    }
+}
+
+/// Every directory of /repo that holds .st files is a project (all its files, sorted);
+/// every single .st file is a project of its own as well.
+fn corpus_projects() -> Vec<Project> {
+    let root = crate::engine::repo_root();
+    let mut paths = Vec::new();
+    walk(&root, &mut paths);
+    let mut by_dir: std::collections::BTreeMap<String, Vec<(String, String)>> = std::collections::BTreeMap::new();
+    let mut singles = Vec::new();
+    for p in paths {
+        let Ok(text) = std::fs::read_to_string(&p) else {
+            continue;
+        };
+        if text.is_empty() || text.len() > 200_000 {
+            continue;
+        }
+        let rel = p.strip_prefix(&root).unwrap_or(&p).display().to_string();
+        let dir = p.parent().map(|d| d.strip_prefix(&root).unwrap_or(d).display().to_string()).unwrap_or_default();
+        by_dir.entry(dir).or_default().push((rel.clone(), text.clone()));
+        singles.push(Project { name: rel.clone(), files: vec![(rel, text)] });
+    }
+    let mut out = Vec::new();
+    for (dir, files) in by_dir {
+        if files.len() > 1 {
+            out.push(Project { name: format!("{dir}/"), files });
+        }
+    }
+    out.extend(singles);
+    out
+}
+
+fn corpus_case(p: &Project, steps: &[Tape], with_paths: bool) -> Case {
+    use crate::engine::tape::Reader;
+    use gen::{Lit, Write};
+    let files = p
+        .files
+        .iter()
+        .map(|(path, text)| SrcFile { path: if with_paths { Some(path.clone()) } else { None }, text: text.clone() })
+        .collect();
+    let mut trace = Vec::new();
+    for t in steps {
+        let mut r = Reader::new(t);
+        let dt = [0i64, 1_000_000, 10_000_000, 20_000_000, 100_000_000, 1_000_000_000, 50_000_001][r.pick(7)];
+        let mut writes = Vec::new();
+        for bit in 0..4 {
+            if r.flag() {
+                writes.push(Write::Direct { addr: format!("%IX0.{bit}"), val: Lit::Bool(r.flag()) });
+            }
+        }
+        if r.flag() {
+            writes.push(Write::Direct { addr: "%IW2".into(), val: Lit::Int([0i16, 1, 250, -7, 32767][r.pick(5)]) });
+        }
+        trace.push(Step { dt_ns: dt, writes });
+    }
+    Case { origin: format!("corpus:{}", p.name), files, trace, stats: None, fresh: false }
+}
+
+#[derive(Clone, Debug, Serialize, Deserialize)]
+pub struct CorpusPick {
+    pub project: usize,
+    pub steps: Vec<Tape>,
+    pub with_paths: bool,
+    #[serde(skip)]
+    pub fresh: bool,
+}
+
+// ------------------------------------------------------------------------------ oracle
+
+static INFRA: Mutex<Vec<String>> = Mutex::new(Vec::new());
+
+fn infra(msg: String) {
+    if let Ok(mut v) = INFRA.lock() {
+        if v.len() < 20 {
+            v.push(msg);
+        }
+    }
+}
+
+struct Children {
+    k: usize,
+    job_path: std::path::PathBuf,
+}
+
+/// Start K children on the job; each gets its own environment size, thread count and
+/// allocation pre-amble. Returns per child the per-case results, or an infrastructure error.
+fn run_children(ch: &Children, cases: &[ChildCase], full: bool, pause: bool) -> Result<Vec<Vec<CaseResult>>, String> {
+    let exe = std::env::current_exe().map_err(|e| format!("current_exe: {e}"))?;
+    let mut procs = Vec::new();
+    for i in 0..ch.k {
+        let job = Job { cases: cases.to_vec(), full, threads: [0usize, 3, 7, 1, 12, 5][i % 6], allocs: [0usize, 1500, 9000, 300, 40000, 5][i % 6], pause_ms: if pause && i == 1 { 1100 } else { 0 }, public_api: i == 0 };
+        let path = ch.job_path.with_extension(format!("{i}.json"));
+        std::fs::write(&path, serde_json::to_vec(&job).map_err(|e| e.to_string())?).map_err(|e| format!("write job: {e}"))?;
+        let pad = "x".repeat(17 + i * 3001);
+        let child = Command::new(&exe)
+            .arg("c05-worker")
+            .arg(&path)
+            .env("C05_PAD", pad)
+            .env(format!("C05_EXTRA_{i}"), "1")
+            .stdin(Stdio::null())
+            .stdout(Stdio::piped())
+            .stderr(Stdio::piped())
+            .spawn()
+            .map_err(|e| format!("spawn: {e}"))?;
+        procs.push(child);
+    }
+    let mut out = Vec::new();
+    let mut err: Option<String> = None;
+    for (i, mut p) in procs.into_iter().enumerate() {
+        let mut text = String::new();
+        if let Some(mut so) = p.stdout.take() {
+            let _ = so.read_to_string(&mut text);
+        }
+        let mut etext = String::new();
+        if let Some(mut se) = p.stderr.take() {
+            let _ = se.read_to_string(&mut etext);
+        }
+        let status = p.wait().map_err(|e| format!("wait: {e}"))?;
+        if !status.success() {
+            err.get_or_insert(format!("child {i} ended with {status}: {}", etext.lines().last().unwrap_or("")));
+            continue;
+        }
+        match serde_json::from_str::<Vec<CaseResult>>(text.trim()) {
+            Ok(r) if r.len() == cases.len() => out.push(r),
+            _ => {
+                err.get_or_insert(format!("child {i}: unreadable result"));
+            }
+        }
+    }
+    match err {
+        Some(e) => Err(e),
+        None => Ok(out),
+    }
+}
+
+fn section_name(id: u16) -> &'static str {
+    match id {
+        1 => "STRING_TABLE",
+        2 => "TYPE_TABLE",
+        3 => "CONST_POOL",
+        4 => "REF_TABLE",
+        5 => "POU_INDEX",
+        6 => "POU_BODIES",
+        7 => "RESOURCE_META",
+        8 => "IO_MAP",
+        9 => "DEBUG_MAP",
+        10 => "DEBUG_STRING_TABLE",
+        11 => "VAR_META",
+        12 => "RETAIN_INIT",
+        _ => "UNKNOWN",
+    }
+}
+
+/// Which artefact differs between two observations (None = identical).
+fn first_difference(a: &Rep, b: &Rep) -> Option<String> {
+    if a.stbc != b.stbc {
+        if a.stbc.starts_with("PANIC") || b.stbc.starts_with("PANIC") {
+            return Some(format!("one observation panicked: {:?} vs {:?}", short(&a.stbc), short(&b.stbc)));
+        }
+        if a.stbc == "ERR" || b.stbc == "ERR" {
+            return Some("the project compiles in one observation and is rejected in the other".into());
+        }
+        let mut which = Vec::new();
+        if a.sections.len() != b.sections.len() {
+            which.push(format!("section count {} vs {}", a.sections.len(), b.sections.len()));
+        }
+        for (x, y) in a.sections.iter().zip(b.sections.iter()) {
+            if x != y {
+                which.push(format!("{}(0x{:04x})", section_name(x.0), x.0));
+            }
+        }
+        return Some(format!("STBC bytes differ ({} vs {} bytes); differing sections: {}", a.stbc_len, b.stbc_len, which.join(", ")));
+    }
+    if a.cycles.len() != b.cycles.len() {
+        return Some(format!("number of executed cycles differs: {} vs {}", a.cycles.len(), b.cycles.len()));
+    }
+    for (i, (x, y)) in a.cycles.iter().zip(b.cycles.iter()).enumerate() {
+        if x != y {
+            return Some(format!("variable state / outputs after cycle {i} differ"));
+        }
+    }
+    if a.faults != b.faults {
+        return Some(format!("fault lists differ ({} vs {} entries)", a.fault_count, b.fault_count));
+    }
+    if a.events != b.events {
+        return Some(format!("runtime event sequences differ ({} vs {} events)", a.event_count, b.event_count));
+    }
     None
 }
 
+fn short(s: &str) -> String {
+    s.chars().take(160).collect()
+}
+
+fn line_diff(what: &str, a: &[String], b: &[String]) -> Option<String> {
+    let n = a.len().max(b.len());
+    for i in 0..n {
+        let x = a.get(i).map(|s| s.as_str()).unwrap_or("<end>");
+        let y = b.get(i).map(|s| s.as_str()).unwrap_or("<end>");
+        if x != y {
+            return Some(format!("{what}: first difference at line {i}:\n    A: {}\n    B: {}", short(x), short(y)));
+        }
+    }
+    None
+}
+
+/// Small diff between two `full` observations.
+fn full_diff(a: &Rep, b: &Rep) -> Option<String> {
+    let (fa, fb) = (a.full.as_ref()?, b.full.as_ref()?);
+    if a.stbc != b.stbc {
+        for (id, la) in &fa.sections {
+            let lb = fb.sections.get(id).cloned().unwrap_or_default();
+            if let Some(d) = line_diff(&format!("decoded section {}", section_name(*id)), la, &lb) {
+                return Some(d);
+            }
+        }
+        if fa.compile_error != fb.compile_error {
+            return Some(format!("compile errors: A: {} | B: {}", short(&fa.compile_error), short(&fb.compile_error)));
+        }
+        return Some("containers differ in bytes but decode to equal sections".into());
+    }
+    for (i, (ca, cb)) in fa.cycles.iter().zip(fb.cycles.iter()).enumerate() {
+        if let Some(d) = line_diff(&format!("state dump after cycle {i}"), ca, cb) {
+            return Some(d);
+        }
+    }
+    if let Some(d) = line_diff("fault list", &fa.faults, &fb.faults) {
+        return Some(d);
+    }
+    line_diff("runtime events", &fa.events, &fb.events)
+}
+
+fn find_mismatch(results: &[Vec<CaseResult>], case_idx: usize) -> Option<(String, (usize, usize), (usize, usize))> {
+    let mut obs: Vec<((usize, usize), &Rep)> = Vec::new();
+    for (p, r) in results.iter().enumerate() {
+        for (k, rep) in r[case_idx].reps.iter().enumerate() {
+            obs.push(((p, k), rep));
+        }
+    }
+    let (first_id, first) = obs[0];
+    for (id, rep) in obs.iter().skip(1) {
+        if let Some(d) = first_difference(first, rep) {
+            return Some((d, first_id, *id));
+        }
+    }
+    None
+}
+
+fn check_case(ch: &Children, case: &Case, probe: &mut Probe) -> Result<(), String> {
+    let cc = case.child();
+    // 1 case in 16 (chosen by its digest): one child pauses 1.1 s between its two repetitions
+    let pause = crate::engine::digest64(&case.key()) % 16 == 0;
+    if pause {
+        probe.label("wall_clock_pause=1100ms");
+    }
+    let results = match run_children(ch, std::slice::from_ref(&cc), false, pause) {
+        Ok(r) => r,
+        Err(e) => {
+            // a child that dies is only a C05 matter if the others do not: decide by re-running once
+            match run_children(ch, std::slice::from_ref(&cc), false, pause) {
+                Ok(_) => {
+                    return Err(format!("process-dependent failure: a child process failed on this case ({e}) and succeeded when started again"));
+                }
+                Err(e2) => {
+                    infra(format!("children failed twice on one case ({}): {e} / {e2}", case.origin));
+                    probe.label("infra=child_failed");
+                    return Ok(());
+                }
+            }
+        }
+    };
+    let rep0 = &results[0][0].reps[0];
+    // classification
+    probe.label(if rep0.stbc == "ERR" { "compile=rejected" } else if rep0.stbc.starts_with("PANIC") { "compile=panic" } else { "compile=ok" });
+    let origin = if case.origin.starts_with("corpus") { "corpus" } else { "generated" };
+    probe.label(format!("origin={origin}"));
+    if rep0.stbc.len() != 64 {
+        probe.label(format!("rejected_origin={origin}"));
+    }
+    probe.label(format!("files={}", case.files.len()));
+    probe.label(format!("pous={}", bucket(rep0.pous)));
+    probe.label(format!("strings={}", bucket(rep0.strings)));
+    probe.label(format!("cycles={}", case.trace.len()));
+    probe.label(if rep0.fault_count > 0 { "faults=some" } else { "faults=none" });
+    probe.label(format!("sections={}", rep0.sections.len()));
+    if let Some(s) = &case.stats {
+        probe.label(if s.configuration { "config=yes" } else { "config=no" });
+        probe.label(format!("tasks={}", s.tasks.min(5)));
+        probe.label(format!("derived={}", s.derived.min(4)));
+        probe.label(format!("background_programs={}", s.background.min(4)));
+        probe.label(format!("methods={}", bucket(s.methods)));
+        probe.label(format!("namespaces={}", s.namespaces));
+        probe.label(if s.io_bindings > 0 { "io_bindings=some" } else { "io_bindings=none" });
+        probe.label(if s.retain_vars > 0 { "retain=some" } else { "retain=none" });
+    }
+    if rep0.stbc.len() == 64 && rep0.pous >= 3 && rep0.strings >= 20 && case.trace.len() >= 2 {
+        probe.nontrivial(&case.key());
+        probe.sample(json!({
+            "origin": case.origin,
+            "files": case.files.len(),
+            "source_bytes": case.files.iter().map(|f| f.text.len()).sum::<usize>(),
+            "pous": rep0.pous,
+            "strings": rep0.strings,
+            "stbc_bytes": rep0.stbc_len,
+            "cycles": case.trace.len(),
+            "stats": case.stats,
+        }));
+    }
+    if let Some((what, a, b)) = find_mismatch(&results, 0) {
+        let mut msg = format!(
+            "non-deterministic: {what}\n  between process {} repetition {} and process {} repetition {} ({} project, {} file(s))",
+            a.0, a.1, b.0, b.1, case.origin, case.files.len()
+        );
+        // best effort: run again with the artefacts as text and show the first differing line
+        if let Ok(full) = run_children(ch, std::slice::from_ref(&cc), true, pause) {
+            let mut obs: Vec<&Rep> = Vec::new();
+            for r in &full {
+                for rep in &r[0].reps {
+                    obs.push(rep);
+                }
+            }
+            'outer: for i in 0..obs.len() {
+                for j in i + 1..obs.len() {
+                    if first_difference(obs[i], obs[j]).is_some() {
+                        if let Some(d) = full_diff(obs[i], obs[j]) {
+                            msg.push_str("\n  ");
+                            msg.push_str(&d);
+                        }
+                        break 'outer;
+                    }
+                }
+            }
+        }
+        return Err(msg);
+    }
+    Ok(())
+}
+
+/// Shrinking a failing case costs 3 process starts per candidate and the failure is
+/// probabilistic (two hash seeds can give the same order), so it is bounded: after the first
+/// failure of a fresh case at most SHRINK_BUDGET further candidates are evaluated, the rest
+/// are not explored (reported as passing to proptest, which then stops at the smallest
+/// failing case found so far). Replay files never start or consume the budget.
+const SHRINK_BUDGET: usize = 160;
+static FAILED: std::sync::atomic::AtomicBool = std::sync::atomic::AtomicBool::new(false);
+static AFTER_FAILURE: std::sync::atomic::AtomicUsize = std::sync::atomic::AtomicUsize::new(0);
+
+fn budgeted(fresh: bool, f: impl FnOnce() -> Result<(), String>) -> Result<(), String> {
+    use std::sync::atomic::Ordering::SeqCst;
+    if fresh && FAILED.load(SeqCst) && AFTER_FAILURE.fetch_add(1, SeqCst) >= SHRINK_BUDGET {
+        return Ok(());
+    }
+    let r = f();
+    if fresh && r.is_err() {
+        FAILED.store(true, SeqCst);
+    }
+    r
+}
+
+fn reset_budget() {
+    use std::sync::atomic::Ordering::SeqCst;
+    FAILED.store(false, SeqCst);
+    AFTER_FAILURE.store(0, SeqCst);
+}
+
+fn bucket(n: usize) -> &'static str {
+    match n {
+        0 => "0",
+        1..=2 => "1-2",
+        3..=9 => "3-9",
+        10..=19 => "10-19",
+        20..=49 => "20-49",
+        50..=99 => "50-99",
+        100..=199 => "100-199",
+        _ => "200+",
+    }
+}
+
 fn run(ctx: &mut RunCtx) {
-    ctx.inconclusive("check not built yet");
+    let tier = ctx.tier;
+    let k = match tier {
+        Tier::Quick => 3,
+        Tier::Thorough => 6,
+    };
+    let job_dir = verif_root().join("out").join("C05");
+    let _ = std::fs::create_dir_all(&job_dir);
+    let ch = Children { k, job_path: job_dir.join(format!("job-w{}-{}", ctx.worker, std::process::id())) };
+
+    reset_budget();
+    ctx.search("gen", gen_case_strategy(), tier.pick(520, 20_000), |c: &Case, p| budgeted(c.fresh, || check_case(&ch, c, p)));
+
+    let projects = corpus_projects();
+    ctx.note(format!("corpus: {} projects (directories with >= 2 .st files + every single .st file of /repo)", projects.len()));
+    if !projects.is_empty() {
+        let n = projects.len();
+        let strat = (0..n, proptest::collection::vec(words(8), 2..=4), any::<bool>());
+        let projects_ref = &projects;
+        reset_budget();
+        ctx.search(
+            "corpus",
+            strat.prop_map(move |(i, steps, with_paths)| CorpusPick { project: i, steps, with_paths, fresh: true }),
+            tier.pick(80, 1200),
+            |c: &CorpusPick, p| {
+                let proj = &projects_ref[c.project.min(projects_ref.len() - 1)];
+                let case = corpus_case(proj, &c.steps, c.with_paths);
+                budgeted(c.fresh, || check_case(&ch, &case, p))
+            },
+        );
+    }
+    for i in 0..6 {
+        let _ = std::fs::remove_file(ch.job_path.with_extension(format!("{i}.json")));
+    }
+    if let Ok(mut v) = INFRA.lock() {
+        for m in v.drain(..) {
+            ctx.inconclusive(m);
+        }
+    }
+}
+
+/// `tpv c05-try <cases> <seed>`: development aid - generate cases, compile in-process,
+/// print acceptance and the first errors.
+fn try_main(args: &[String]) -> i32 {
+    use proptest::strategy::ValueTree;
+    use proptest::test_runner::{Config, RngSeed, TestRunner};
+    let n: usize = args.get(1).and_then(|s| s.parse().ok()).unwrap_or(20);
+    let seed: u64 = args.get(2).and_then(|s| s.parse().ok()).unwrap_or(1);
+    let dump = args.get(3).cloned();
+    let mut runner = TestRunner::new(Config { rng_seed: RngSeed::Fixed(seed), failure_persistence: None, ..Config::default() });
+    let strat = gen_case_strategy();
+    let mut ok = 0;
+    let mut errs: std::collections::BTreeMap<String, usize> = std::collections::BTreeMap::new();
+    crate::engine::install_quiet_panic_hook();
+    for i in 0..n {
+        let case = strat.new_tree(&mut runner).unwrap().current();
+        let started = std::time::Instant::now();
+        let r = child::run_case_dev(&case.child(), std::env::var("C05_TRY_FAST").is_err());
+        let rep = &r.reps[0];
+        let bytes: usize = case.files.iter().map(|f| f.text.len()).sum();
+        if rep.stbc.len() == 64 {
+            ok += 1;
+            println!(
+                "case {i}: ok src={bytes}B files={} stbc={}B pous={} strings={} faults={} events={} {:?} {:?}",
+                case.files.len(),
+                rep.stbc_len,
+                rep.pous,
+                rep.strings,
+                rep.fault_count,
+                rep.event_count,
+                started.elapsed(),
+                rep.full.as_ref().map(|f| f.faults.first().cloned())
+            );
+        } else {
+            let e = rep.full.as_ref().map(|f| f.compile_error.clone()).unwrap_or_default();
+            let e = if e.is_empty() { rep.stbc.clone() } else { e };
+            println!("case {i}: REJECTED {}", short(e.lines().next().unwrap_or("")));
+            for l in e.lines().take(6) {
+                *errs.entry(short(l)).or_default() += 1;
+            }
+        }
+        if let Some(d) = &dump {
+            let _ = std::fs::create_dir_all(d);
+            for (k, f) in case.files.iter().enumerate() {
+                let _ = std::fs::write(format!("{d}/case{i}_{k}.st"), &f.text);
+            }
+        }
+    }
+    println!("accepted {ok}/{n}");
+    for (e, c) in errs {
+        println!("{c:4} {e}");
+    }
+    0
 }
